@@ -27,8 +27,9 @@ TRUSTED = ["hash-seed independence of CPython itself is observed (subprocesses u
            "immutability of the input data/formula is checked by deep snapshots on the implementation (the functional model cannot mutate them)"]
 ASSUMPTIONS = ["results are compared as values (matrix bytes, column names, drop sets); dictionary key ORDER inside a spec's state may differ between seeds"]
 
-FORMULAS = ["center(a) + A", "scale(b) + a:A + B", "poly(a, 2) + C(A, contr.sum)", "a + b + A:B", "bs(a, knots=KN, degree=2, extrapolation='extend') + b"]
-CONTEXT = {"KN": [2.0, 4.0], "unused": {"k": [1, 2, 3]}}          # user objects reachable from the formula: never written to
+FORMULAS = ["center(a) + A", "scale(b) + a:A + B", "poly(a, 2) + C(A, contr.sum)", "a + b + A:B", "bs(a, knots=KN, degree=2, extrapolation='extend') + b",
+            "a + lag(b) + lag(a, -1)", "np.add(a, OFF) + b", "a + lag(np.asarray(b)) + lag(np.asarray(a), -1)"]
+CONTEXT = {"KN": [2.0, 4.0], "unused": {"k": [1, 2, 3]}, "OFF": 1.5}          # user objects reachable from the formula: never written to
 
 
 def _frames():
@@ -66,7 +67,9 @@ def _history(ctx: Ctx, rng):
     from formulaic import Formula, ModelSpec
     warnings.simplefilter("ignore")
     frames = _frames()
+    import numpy as np
     snap = [f.copy(deep=True) for f in frames]
+    arrays = [(f["a"].to_numpy().copy(), f["b"].to_numpy().copy()) for f in frames]
     specs, calls, ops_lit, changed_lit, ops_d = [], [], [], [], []
     import copy
     context = copy.deepcopy(CONTEXT)
@@ -103,6 +106,30 @@ def _history(ctx: Ctx, rng):
         ctx.oracle_runs += 1
         if ch:
             ctx.fail(f"operation {ops_d[-1]} changed the state of earlier spec(s) {ch}", {"kind": "history", "ops": ops_d})
+    # derived specs: metadata of a spec obtained by update()/subset() describes THAT spec, whatever was read from its parent before
+    for k, sp in enumerate(list(specs)):
+        if sp.structure is None:
+            continue
+        ctx.oracle_runs += 1
+        try:
+            _ = (sp.column_names, sp.term_indices, sp.variable_indices)          # fill the parent's caches
+            terms = list(sp.formula)
+            keep = terms[1:] if len(terms) > 1 else terms
+            sub = sp.subset(keep)
+            d = rng.randrange(len(frames))
+            mm = sub.get_model_matrix(frames[d], context=context)
+            got_names = list(mm.model_spec.column_names)
+            arr = np.asarray(mm, dtype=float)
+            if len(got_names) != arr.shape[1] or list(sub.column_names) != got_names:
+                ctx.fail(f"a subset of spec {k} reports columns {got_names} / {list(sub.column_names)} for a matrix with {arr.shape[1]} columns", {"kind": "history", "ops": ops_d})
+            want_names = [c for row in sp.structure if row.term in keep for c in row.columns]
+            if got_names != want_names:
+                ctx.fail(f"a subset of spec {k} to {keep} has columns {got_names}, the parent's columns for these terms are {want_names}", {"kind": "history", "ops": ops_d})
+            upd = sp.update(output="numpy")
+            if list(upd.column_names) != list(sp.column_names):
+                ctx.fail(f"update() of spec {k} changed the reported columns", {"kind": "history", "ops": ops_d})
+        except Exception as e:
+            ctx.fail(f"deriving specs from spec {k}: {type(e).__name__}: {e}", {"kind": "history", "ops": ops_d})
     # repeat every call: bit-identical
     for s, d, key in calls:
         ctx.oracle_runs += 1
@@ -112,6 +139,9 @@ def _history(ctx: Ctx, rng):
     for f, s_ in zip(frames, snap):
         if not f.equals(s_) or list(f.dtypes) != list(s_.dtypes):
             ctx.fail("a build mutated the input data frame", {"kind": "history", "ops": ops_d})
+    for f_, a0 in zip(frames, arrays):
+        if not np.array_equal(f_["a"].to_numpy(), a0[0], equal_nan=True) or not np.array_equal(f_["b"].to_numpy(), a0[1], equal_nan=True):
+            ctx.fail("a build wrote into the arrays of the input data frame", {"kind": "history", "ops": ops_d})
     if context != CONTEXT:
         ctx.fail(f"a build wrote to an object of the caller's context: {context} (was {CONTEXT})", {"kind": "history", "ops": ops_d})
     if [repr(f) for f in formulas] != fsnap:
